@@ -233,9 +233,9 @@ Fixpoint k_labels (fuel : nat) (m : bytes) (lim cur seg name_len : N) : kres :=
             if 255 <=? nl then KNone
             else k_labels fuel' m lim (cur' + l) seg nl
       | Ok (LCompressed ptr, cur') =>
-          match k_hops (S (N.to_nat ptr)) m lim seg ptr cur' with
+          match k_hops (S (S (N.to_nat ptr))) m lim seg ptr cur' with
           | KNone =>
-              match hops (S (N.to_nat ptr)) m lim ptr cur' with
+              match hops (S (S (N.to_nat ptr))) m lim ptr cur' with
               | Ok target => k_labels fuel' m lim target target name_len
               | _ => KNone
               end
